@@ -309,6 +309,14 @@ def _file_naming(ck, rule="C08.2"):
                     order.append(("field", "stem" if t[2] == C(0) else "ext"))
                 else:
                     order.append(("field", "?"))
+    if order is None and name_arg[0] == "mcall" and name_arg[2] == "replace" and len(name_arg[3]) >= 2 and name_arg[3][0][0] == "c" \
+            and any(x == number for x in T.subterms(name_arg[3][1])):
+        ck.violation(rule, "createAdditionalOutputFile:template", w,
+                     f"the additional file's name is the output name with {name_arg[3][0][1]!r} replaced: for an output name that does "
+                     "not contain it (`-o result.txt`, `-o out`) nothing is replaced - the additional XMAP is opened under the *same* "
+                     "path as the main file, which argparse holds open, and the two are written over each other",
+                     found=T.show(name_arg)[:160], required="<stem>_<n><ext> from os.path.splitext(<output name>)")
+        return
     if order is None:
         raise AnalysisError(f"{w}: file-name construction not recognised: {T.show(name_arg)[:160]}")
     fields = [x[1] for x in order if x[0] == "field"]
